@@ -41,7 +41,8 @@ def run(tier):
     # algorithm; the thorough tier adds 2^32 bytes (byte count beyond 32 bits)
     opt_exe = rt.TREE.program("opt", "vprim.c", name="vprim-opt", wrap=False, libs="-lgcrypt")
     for a in range(7):
-        for lg in ((29,) if tier == "quick" else (29, 31, 32)):
+        # (MD4 and MD5 keep the count in two 32-bit words with hand-written carries - F11 was there: 2^32 in both tiers)
+        for lg in (((29, 32) if a < 2 else (29,)) if tier == "quick" else (29, 31, 32)):
             cmds.append([opt_exe, "huge", str(run_.seed + a), str(lg), str(a)])
             runs.append((opt_exe, run_.seed + a))
     procs = []
